@@ -101,6 +101,38 @@ def kepler_state(mu, a, e, inc, Omega, omega, M):
 
 
 def rk4_nbody(state, masses, T, h):
+    try:
+        import numpy as np
+    except ImportError:
+        return rk4_nbody_py(state, masses, T, h)
+    n = len(masses)
+    m = np.array(masses, dtype=float)
+    y = np.array(state, dtype=float).reshape(n, 6)
+    steps = int(round(abs(T) / h))
+    h = T / steps
+    iu = np.triu_indices(n, 1)
+
+    def deriv(y):
+        x = y[:, :3]
+        d = x[None, :, :] - x[:, None, :]          # d[i, j] = x_j - x_i
+        r2 = (d * d).sum(axis=2)
+        np.fill_diagonal(r2, 1.0)
+        w = m[None, :] / (r2 * np.sqrt(r2))
+        np.fill_diagonal(w, 0.0)
+        out = np.empty_like(y)
+        out[:, :3] = y[:, 3:]
+        out[:, 3:] = (w[:, :, None] * d).sum(axis=1)
+        return out
+    for _ in range(steps):
+        k1 = deriv(y)
+        k2 = deriv(y + 0.5 * h * k1)
+        k3 = deriv(y + 0.5 * h * k2)
+        k4 = deriv(y + h * k3)
+        y = y + h / 6 * (k1 + 2 * k2 + 2 * k3 + k4)
+    return [float(v) for v in y.reshape(-1)]
+
+
+def rk4_nbody_py(state, masses, T, h):
     n = len(masses)
 
     def acc(s):
@@ -173,62 +205,132 @@ def two_body(res, tier):
                 viol(res, "two-body-exactness", integrator=name, opts=opts, direction=sgn, error=err)
 
 
-def order_runs(res, adv, tier):
-    """three-body convergence against an RK4 reference that does not use REBOUND"""
-    masses = [1.0, 1e-3, 4e-4]
-    tmp = rebound.Simulation()
-    tmp.add(m=masses[0])
-    tmp.add(m=masses[1], a=1.0, e=0.1, inc=0.1, f=0.4)
-    tmp.add(m=masses[2], a=1.9, e=0.05, inc=0.05, Omega=1.0, f=2.0)
-    tmp.move_to_com()
-    s0 = []
-    for p in tmp.particles:
-        s0 += [p.x, p.y, p.z, p.vx, p.vy, p.vz]
+def measure(res, cfgs, masses, s0, refs, T, tag, dirs, accbound=5e-4):
+    """error at three step sizes against the reference; observed order >= advertised - 0.7 above the rounding floor"""
+    nb = len(masses)
+    floor = 3e-11
+
+    def one(name, opts, sgn, n):
+        sim = rebound.Simulation()
+        for i, m in enumerate(masses):
+            sim.add(m=m, x=s0[6 * i], y=s0[6 * i + 1], z=s0[6 * i + 2], vx=s0[6 * i + 3], vy=s0[6 * i + 4], vz=s0[6 * i + 5])
+        set_opts(sim, name, opts)
+        sim.dt = sgn * T / n
+        sim.steps(n)
+        sim.synchronize()
+        got = []
+        for p in sim.particles:
+            got += [p.x, p.y, p.z]
+        ref = [refs[sgn][6 * i + k] for i in range(nb) for k in range(3)]
+        return max(abs(a - b) for a, b in zip(got, ref))
+    for sgn in dirs:
+        for name, opts, want, n0 in cfgs:
+            try:
+                errs = [one(name, opts, sgn, n) for n in (n0, 2 * n0, 4 * n0)]
+            except Exception as ex:  # noqa: BLE001
+                viol(res, "run-failed", integrator=name, opts=opts, error=str(ex)[:100])
+                continue
+            res["order_runs"] += 1
+            orders = [math.log2(errs[k] / errs[k + 1]) if errs[k + 1] > 0 else 99.0 for k in range(2)]
+            lab = "%s%s %s dir%+d" % (tag, name, {k: v for k, v in opts.items() if not k.startswith("scale")}, sgn)
+            if len(res["observed"]) < 400:
+                res["observed"]["order " + lab] = [round(o, 2) for o in orders] + [errs[-1]]
+            measurable = [o for o, e in zip(orders, errs[1:]) if e > floor]
+            if measurable and max(measurable) < want - 0.4:
+                # possibly pre-asymptotic (two error terms of different order cancelling at the coarse end): refine further; a real
+                # loss of order persists, so the verdict is taken from the two finest slopes that are still above the rounding floor
+                n = 4 * n0
+                while len(errs) < 6 and errs[-1] > floor:
+                    n *= 2
+                    errs.append(one(name, opts, sgn, n))
+                    orders.append(math.log2(errs[-2] / errs[-1]) if errs[-1] > 0 else 99.0)
+                fine = [o for o, e in zip(orders, errs[1:]) if e > floor][-2:]
+                if fine and max(fine) < want - 0.7:
+                    viol(res, "convergence-order", integrator=name, opts=opts, direction=sgn, advertised=want, observed=orders, errors=errs, system=tag)
+            if not errs[2] <= accbound:
+                viol(res, "accuracy", integrator=name, opts=opts, direction=sgn, error=errs[2], system=tag)
+
+
+N0 = {2: 16, 4: 16, 6: 8, 8: 2}
+
+
+def lattice_cfgs(adv, valid):
+    """the documented option lattice: every valid WHFast combination (Order.tla VALID rows), 18 SABA types, 9 x 9 EOS splittings"""
+    out = []
+    for v in valid:
+        if v["valid"]:
+            for sm in (1, 0):
+                o = {"coordinates": v["coord"], "kernel": v["kernel"], "corrector": v["corr"], "safe_mode": sm}
+                out.append(("whfast", o, adv["whfast"], 16))
+                if v["corr"]:
+                    out.append(("whfast", dict(o, corrector2=1), adv["whfast"], 16))
+    for t in SABA_TYPES:
+        for sm in (1, 0):
+            out.append(("saba", {"type": t, "safe_mode": sm}, adv["saba"], 16))
+    eo = {t: adv["eostype_" + t] for t in EOS_TYPES}
+    for t0 in EOS_TYPES:
+        for t1 in EOS_TYPES:
+            o = min(eo[t0], eo[t1])
+            for sm in (1, 0):
+                out.append(("eos", {"phi0": t0, "phi1": t1, "safe_mode": sm}, o, 32 if o == 2 else N0[o]))
+    return out
+
+
+SABA_TYPES = ["1", "2", "3", "4", "cm1", "cm2", "cm3", "cm4", "cl1", "cl2", "cl3", "cl4", "10,4", "8,6,4", "10,6,4", "h8,4,4", "h8,6,4", "h10,6,4"]
+EOS_TYPES = ["lf", "lf4", "lf6", "lf8", "lf4_2", "lf8_6_4", "plf7_6_4", "pmlf4", "pmlf6"]
+
+
+def random_system(rng, n):
+    sim = rebound.Simulation()
+    sim.add(m=1.0)
+    a = 1.0
+    masses = [1.0]
+    for k in range(n - 1):
+        m = 10 ** rng.uniform(-5, -3)
+        masses.append(m)
+        sim.add(m=m, a=a, e=rng.uniform(0, 0.12), inc=rng.uniform(0, 0.1), Omega=rng.uniform(0, 6), omega=rng.uniform(0, 6), f=rng.uniform(0, 6))
+        a *= rng.uniform(1.5, 1.9)
+    sim.move_to_com()
+    return masses, state_of(sim)
+
+
+def order_runs(res, adv, tier, valid=(), seed=0):
+    """few-body convergence against an RK4 reference that does not use REBOUND"""
+    masses, s0 = three_body()
     T = 1.6
     refs = {1: rk4_nbody(s0, masses, T, 2.5e-4), -1: rk4_nbody(s0, masses, -T, 2.5e-4)}
-    cfgs = [("leapfrog", {}, "leapfrog", 64), ("whfast", {}, "whfast", 16), ("whfast", {"coordinates": "democraticheliocentric"}, "whfast", 16),
-            ("whfast", {"coordinates": "whds"}, "whfast", 16), ("whfast", {"coordinates": "barycentric"}, "whfast", 16),
-            ("whfast", {"kernel": "modifiedkick"}, "whfast", 16), ("whfast", {"kernel": "composition"}, "whfast", 16), ("whfast", {"kernel": "lazy"}, "whfast", 16),
-            ("saba", {"type": "1"}, "saba", 16), ("saba", {"type": "2"}, "saba", 16), ("saba", {"type": "4"}, "saba", 16), ("saba", {"type": "cl2"}, "saba", 16),
-            ("saba", {"type": "10,6,4"}, "saba", 16), ("mercurius", {}, "mercurius", 16), ("trace", {}, "trace", 16),
-            ("eos", {"phi0": "lf", "phi1": "lf"}, "eos_lf", 32), ("eos", {"phi0": "lf4", "phi1": "lf4"}, "eos_lf4", 16), ("eos", {"phi0": "lf6", "phi1": "lf6"}, "eos_lf6", 8),
-            ("eos", {"phi0": "pmlf4", "phi1": "pmlf4"}, "eos_pmlf4", 16), ("eos", {"phi0": "pmlf6", "phi1": "pmlf6"}, "eos_pmlf6", 8),
-            ("janus", {"order": 2, "scale_pos": 1e-17, "scale_vel": 1e-17}, "janus2", 64), ("janus", {"order": 4, "scale_pos": 1e-17, "scale_vel": 1e-17}, "janus4", 32)]
+    A = adv
+    cfgs = [("leapfrog", {}, A["leapfrog"], 64), ("whfast", {}, A["whfast"], 16), ("whfast", {"coordinates": "democraticheliocentric"}, A["whfast"], 16),
+            ("whfast", {"coordinates": "whds"}, A["whfast"], 16), ("whfast", {"coordinates": "barycentric"}, A["whfast"], 16),
+            ("whfast", {"kernel": "modifiedkick"}, A["whfast"], 16), ("whfast", {"kernel": "composition"}, A["whfast"], 16), ("whfast", {"kernel": "lazy"}, A["whfast"], 16),
+            ("saba", {"type": "1"}, A["saba"], 16), ("saba", {"type": "2"}, A["saba"], 16), ("saba", {"type": "4"}, A["saba"], 16), ("saba", {"type": "cl2"}, A["saba"], 16),
+            ("saba", {"type": "10,6,4"}, A["saba"], 16), ("mercurius", {}, A["mercurius"], 16), ("trace", {}, A["trace"], 16),
+            ("eos", {"phi0": "lf", "phi1": "lf"}, A["eos_lf"], 32), ("eos", {"phi0": "lf4", "phi1": "lf4"}, A["eos_lf4"], 16), ("eos", {"phi0": "lf6", "phi1": "lf6"}, A["eos_lf6"], 8),
+            ("eos", {"phi0": "pmlf4", "phi1": "pmlf4"}, A["eos_pmlf4"], 16), ("eos", {"phi0": "pmlf6", "phi1": "pmlf6"}, A["eos_pmlf6"], 8),
+            ("janus", {"order": 2, "scale_pos": 1e-17, "scale_vel": 1e-17}, A["janus2"], 64), ("janus", {"order": 4, "scale_pos": 1e-17, "scale_vel": 1e-17}, A["janus4"], 32)]
     # the same schemes with the synchronisation left to the end (safe_mode 0: first/last sub-steps of neighbouring steps combined)
     cfgs += [(n, dict(o, safe_mode=0), k, n0) for n, o, k, n0 in cfgs if n in ("whfast", "saba", "eos", "mercurius")]
-    cfgs += [("eos", {"phi0": "lf8", "phi1": "lf8", "safe_mode": sm}, "eos_lf8", 2) for sm in (1, 0)] + \
-            [("eos", {"phi0": "lf4_2", "phi1": "lf4", "safe_mode": sm}, "eos_lf4_2", 16) for sm in (1, 0)] + \
-            [("eos", {"phi0": "plf7_6_4", "phi1": "lf8", "n": 4, "safe_mode": sm}, "eos_plf764", 2) for sm in (1, 0)] + \
-            [("eos", {"phi0": "lf8_6_4", "phi1": "lf8", "n": 4, "safe_mode": sm}, "eos_lf864", 2) for sm in (1, 0)]
-    for sgn in (1, -1):
-        for name, opts, key, n0 in cfgs:
-            if sgn == -1 and tier == "quick" and name not in ("whfast", "eos"):
-                continue
-            errs = []
-            for n in (n0, 2 * n0, 4 * n0):
-                sim = rebound.Simulation()
-                for i, m in enumerate(masses):
-                    sim.add(m=m, x=s0[6 * i], y=s0[6 * i + 1], z=s0[6 * i + 2], vx=s0[6 * i + 3], vy=s0[6 * i + 4], vz=s0[6 * i + 5])
-                set_opts(sim, name, opts)
-                sim.dt = sgn * T / n
-                sim.steps(n)
-                sim.synchronize()
-                got = []
-                for p in sim.particles:
-                    got += [p.x, p.y, p.z]
-                ref = [refs[sgn][6 * i + k] for i in range(3) for k in range(3)]
-                errs.append(max(abs(a - b) for a, b in zip(got, ref)))
-            res["order_runs"] += 1
-            want = adv[key]
-            orders = [math.log2(errs[k] / errs[k + 1]) if errs[k + 1] > 0 else 99.0 for k in range(2)]
-            lab = "%s %s dir%+d" % (name, {k: v for k, v in opts.items() if not k.startswith("scale")}, sgn)
-            res["observed"]["order " + lab] = [round(o, 2) for o in orders] + [errs[-1]]
-            floor = 3e-11
-            measurable = [o for o, e in zip(orders, errs[1:]) if e > floor]
-            if measurable and max(measurable) < want - 0.7:
-                viol(res, "convergence-order", integrator=name, opts=opts, direction=sgn, advertised=want, observed=orders, errors=errs)
-            if not errs[-1] <= 5e-4:
-                viol(res, "accuracy", integrator=name, opts=opts, direction=sgn, error=errs[-1])
+    cfgs += [("eos", {"phi0": "lf8", "phi1": "lf8", "safe_mode": sm}, A["eos_lf8"], 2) for sm in (1, 0)] + \
+            [("eos", {"phi0": "lf4_2", "phi1": "lf4", "safe_mode": sm}, A["eos_lf4_2"], 16) for sm in (1, 0)] + \
+            [("eos", {"phi0": "plf7_6_4", "phi1": "lf8", "n": 4, "safe_mode": sm}, A["eos_plf764"], 2) for sm in (1, 0)] + \
+            [("eos", {"phi0": "lf8_6_4", "phi1": "lf8", "n": 4, "safe_mode": sm}, A["eos_lf864"], 2) for sm in (1, 0)]
+    if tier == "quick":
+        measure(res, cfgs, masses, s0, refs, T, "", (1,))
+        measure(res, [c for c in cfgs if c[0] in ("whfast", "eos")], masses, s0, refs, T, "", (-1,))
+    else:
+        measure(res, cfgs, masses, s0, refs, T, "", (1, -1))
+        lat = lattice_cfgs(adv, valid)
+        measure(res, lat, masses, s0, refs, T, "lattice ", (1,))
+        measure(res, lat[::3], masses, s0, refs, T, "lattice ", (-1,))
+        # further systems: 3 to 5 bodies, random masses and elements in the well-separated regime
+        rng = random.Random(seed * 31 + 7)
+        fixed = [c for c in cfgs if c[0] != "janus"]
+        for k in range(10):
+            nb = 3 + k % 4
+            ms, st = random_system(rng, nb)
+            rf = {1: rk4_nbody(st, ms, T, 2e-4), -1: rk4_nbody(st, ms, -T, 2e-4)}
+            measure(res, fixed + lat, ms, st, rf, T, "random%d(N=%d) " % (k, nb), (1,), accbound=5e-3)
+            measure(res, fixed + lat[k % 3::3], ms, st, rf, T, "random%d(N=%d) " % (k, nb), (-1,), accbound=5e-3)
     # adaptive schemes: accuracy and its response to the tolerance
     for sgn in (1, -1):
         for name, tight, loose in (("ias15", {"epsilon": 1e-9}, {"epsilon": 1e-5}), ("bs", {"eps_rel": 1e-11, "eps_abs": 1e-11}, {"eps_rel": 1e-6, "eps_abs": 1e-6})):
@@ -447,7 +549,7 @@ def main():
     valid_rows(res, valid)
     switch_runs(res, hists, tier, seed)
     two_body(res, tier)
-    order_runs(res, adv, tier)
+    order_runs(res, adv, tier, valid, seed)
     encounter_runs(res, tier)
     ode_runs(res, tier)
     json.dump(res, open(out, "w"))
